@@ -475,7 +475,7 @@ def pool(ck):
     from chython import smiles
     rng = random.Random(f'{ck.seed}:c02pool')
     quick = ck.tier == 'quick'
-    mols = special_molecules() + api_molecules()
+    mols = special_molecules() + api_molecules() + history_molecules()
     from rdkit import RDLogger
     RDLogger.DisableLog('rdApp.*')
     forced = []
@@ -580,7 +580,7 @@ def corr_writer(ck, mols):
             local.append(case_term(f'm{i}', wdone[wkey], f't{i}', spec, ob, full=(n_cases % 16 == 0), ev=(n_cases % 4 == 1), m=m))
             meta.append((name, m, spec, ob['text']))
             WRITTEN_TEXTS.append(ob['text'])
-            if n_cases % 3 == 2 or name in CLOSURE_HEAVY:
+            if n_cases % 5 == 2 or name in CLOSURE_HEAVY:
                 mt2 = mid_term(f'm{i}', wdone[wkey], spec, ob)
                 if mt2 is not None:
                     local.append(mt2)
@@ -648,7 +648,7 @@ def corr_writer(ck, mols):
     ck.extra['writer_intermediate_state_cases'] = n_mid
     ck.oblige('correspondence: Smiles._smiles / format(mol, spec) / str(mol) / smiles_atoms_order == Writer.smiles_tokens '
               '(real weights, observed order as tie-break); every output accepted by the token-stream checker (stream_ok), '
-              'closure lists of every 4th case satisfy wf_events; for every 3rd case of a connected molecule also the local variables '
+              'closure lists of every 4th case satisfy wf_events; for every 5th case of a connected molecule also the local variables '
               'of _smiles at its return (smiles, edges, tokens, casted_cycles, visited, seen) == traverse / flatten / number_atoms / '
               'order_neighbours of the model', ok and not bad and api_ok, 'correspondence',
               log or '; '.join(f'{n} spec={s!r} text={t!r}' for n, _, s, t in bad[:8]))
@@ -1334,6 +1334,151 @@ def search_forced_labels(ck, mols, limit):
     return found
 
 
+# stereogenic, unlabelled molecules for the labelling histories: allenes (open chain, ring-substituted, hetero-substituted,
+# explicit H), a longer odd cumulene, tetrahedral centres, double bonds, an even cumulene, and mixtures
+HISTORY_BASES = [
+    'CC(F)=C=C(C)Cl', 'CC=C=CC', 'FC(Cl)=C=C(Br)I', 'CC(F)=C=C1CCC(C)CC1', 'OC(C)=C=C(C)N', '[H]C(C)=C=C([H])Cl', 'CC(F)=C=C=C=C(C)Cl',
+    'CC(=C=C(C)Cl)C(F)=C=CC', 'CC(F)=C=CC(C)O', 'CC(F)=C=CC=CC',
+    'CC(N)C(=O)O', 'FC(Cl)Br', 'CC(F)C(C)Cl', 'CC1CCC(C)CC1', 'CC=CC', 'FC=CCl', 'CC=C=C=CC', 'CC(F)C=CC', 'CC=CC=CC',
+]
+
+
+def touch(m):
+    """every public way to ask for the canonical string: all of them cache"""
+    s = str(m)
+    hash(m)
+    tuple(m.smiles_atoms_order)
+    m == m   # noqa: B015
+    return s
+
+
+def unlabelled_centres(m):
+    """(kind, key, args of the public labelling call) for every stereogenic centre / bond that carries no label"""
+    out = []
+    for n in sorted(m.chiral_tetrahedrons):
+        out.append(('tetrahedron', n, (n, tuple(m.stereogenic_tetrahedrons[n]))))
+    for n in sorted(m.chiral_allenes):
+        out.append(('allene', n, (n, tuple(m.stereogenic_allenes[n][:2]))))
+    for a, c in sorted(m.chiral_cis_trans):
+        env = m.stereogenic_cis_trans[(a, c)]
+        out.append(('cis-trans', (a, c), (a, c, env[0], env[1])))
+    return out
+
+
+def apply_label(m, kind, args, mark):
+    if kind == 'cis-trans':
+        m.add_cis_trans_stereo(*args, mark)
+    else:
+        m.add_atom_stereo(*args, mark)
+
+
+def history_molecules():
+    """molecules whose canonical string was requested BEFORE they were labelled through the public API (add_atom_stereo /
+    add_cis_trans_stereo with the default cache handling): members of the correspondence pool and of the round-trip search"""
+    from chython import smiles
+    out = []
+    for base in HISTORY_BASES[:12]:
+        try:
+            m = smiles(base)
+            touch(m)
+            cs_ = unlabelled_centres(m)
+            if not cs_:
+                continue
+            for i, (kind, key, args) in enumerate(cs_):
+                apply_label(m, kind, args, i % 2 == 0)
+                touch(m)            # and again between two labellings
+            out.append((f'api:history:str-then-label:{base}', m))
+        except Exception:
+            continue
+    return out
+
+
+def search_label_history(ck, mols, limit):
+    """the canonical string (str / hash / == / smiles_atoms_order) must not depend on WHEN it was first asked for: a molecule
+    labelled through the public API after its string was requested has the string, hash and order of the same molecule labelled
+    without that request, differs from the unlabelled one, and reads back with the label; the same for removing the labels"""
+    from chython import smiles
+    found = 0
+    bases = list(HISTORY_BASES)
+    k = 0
+    for name, m in mols:
+        if k >= limit:
+            break
+        if name.startswith('api:') or '#' in name or not sum(n_labels(m)) or len(m) > 40:
+            continue
+        try:
+            c = m.copy()
+            c.clean_stereo()
+            bases.append(str(c))
+            k += 1
+        except Exception:
+            continue
+    for base in bases:
+        try:
+            u = smiles(base)
+            centres = unlabelled_centres(u)
+        except Exception:
+            continue
+        if not centres:
+            continue
+        s0 = touch(u)
+        for kind, key, args in centres[:6]:
+            for mark in (True, False):
+                ck.count('history:label-after-str:' + kind)
+                call = (f'm.add_cis_trans_stereo({", ".join(map(repr, args))}, {mark})' if kind == 'cis-trans'
+                        else f'm.add_atom_stereo({args[0]}, {args[1]!r}, {mark})')
+                replay = (f"from chython import smiles\nm = smiles({base!r}); print('before', str(m), hash(m))\n{call}\n"
+                          f"print('after, same object      ', str(m), hash(m))\nw = smiles({base!r})\n{call.replace('m.', 'w.', 1)}\n"
+                          f"print('same labelling, no str() before', str(w), hash(w)); print(m == w)\n"
+                          f"print('read back', [(n, a.stereo) for n, a in smiles(str(m)).atoms() if a.stereo is not None])")
+                try:
+                    v = smiles(base)
+                    touch(v)
+                    apply_label(v, kind, args, mark)
+                    w = smiles(base)
+                    apply_label(w, kind, args, mark)
+                    sv, sw = str(v), str(w)
+                    obs = {'str': sv, 'hash': hash(v), 'order': tuple(v.smiles_atoms_order), 'eq_reference': v == w, 'eq_unlabelled': v == u}
+                    exp = {'str': sw, 'hash': hash(w), 'order': tuple(w.smiles_atoms_order), 'eq_reference': True, 'eq_unlabelled': False}
+                except Exception as e:
+                    ck.counterexample(f'label-history-raises:{base}:{kind}', f'labelling after str() raises {type(e).__name__}: {e}',
+                                      {'molecule': base, 'history': ['str(m); hash(m); m.smiles_atoms_order', call]}, type(e).__name__,
+                                      'the labelled molecule', 'history through the public API', replay_py=replay)
+                    found += 1
+                    continue
+                ck.case(('history', base, kind, repr(key), mark), nontrivial=len(v) > 2)
+                if sw == s0:
+                    continue      # the label does not show in the string at all: not this family's business (injectivity search)
+                if obs != exp:
+                    ck.counterexample(f'label-history:{kind}:{base}',
+                                      'the canonical string / hash / order of a molecule labelled through the public API depends on whether '
+                                      'str(mol) was requested before the labelling: ' +
+                                      '; '.join(f'{q}: {obs[q]!r} instead of {exp[q]!r}' for q in obs if obs[q] != exp[q]),
+                                      {'molecule': base, 'history': ['m = smiles(%r)' % base, 'str(m); hash(m); m.smiles_atoms_order; m == m', call, 'str(m)'],
+                                       'unlabelled_string': s0},
+                                      obs, exp, 'the same labelling on a fresh object whose string was never requested; '
+                                      'labelled and unlabelled molecules must differ', replay_py=replay)
+                    found += 1
+                found += roundtrip(ck, f'api:history:{base}:{call}', v, '', 0)
+        # removing the labels after the string was requested
+        try:
+            lab = smiles(base)
+            for i, (kind, key, args) in enumerate(unlabelled_centres(lab)):
+                apply_label(lab, kind, args, i % 2 == 0)
+            s1 = touch(lab)
+            lab.clean_stereo()
+            ck.count('history:clean-stereo-after-str')
+            if s1 != s0 and (str(lab) != s0 or hash(lab) != hash(u) or lab != u):
+                ck.counterexample(f'label-history:clean_stereo:{base}', 'str(mol) after clean_stereo() still shows the labels',
+                                  {'molecule': base, 'history': ['label every centre', 'str(m)', 'm.clean_stereo()', 'str(m)']},
+                                  str(lab), s0, 'the unlabelled molecule read from its SMILES',
+                                  replay_py=f"from chython import smiles\nm = smiles({s1!r}); print(str(m)); m.clean_stereo(); print(str(m))")
+                found += 1
+        except Exception:
+            pass
+    return found
+
+
 def search(ck, mols):
     quick = ck.tier == 'quick'
     rng = random.Random(f'{ck.seed}:c02search')
@@ -1342,6 +1487,7 @@ def search(ck, mols):
     found = search_roundtrip(ck, sub, n_random=3 if quick else 5, full=not quick)
     found += search_ring_stereo(ck, 45 if quick else 600, 10 if quick else 25)
     found += search_forced_labels(ck, mols, 250 if quick else 2000)
+    found += search_label_history(ck, mols, 25 if quick else 300)
     stereo_mols = [x for x in mols if sum(n_labels(x[1])) > 0 and '#' not in x[0]]
     found += search_stereoisomers(ck, stereo_mols if not quick else stereo_mols[:90], max_labels=5 if quick else 8)
     found += search_small_graphs(ck, 4 if quick else 5, DECOR[:5] if quick else DECOR, 3 if quick else 4)
@@ -1430,7 +1576,7 @@ def run(ck):
                         'atom_parse: every written bracket body, all element symbols, field grids incl. out-of-range values, random bodies. '
                         'search: write in each style and random orders -> chython reader -> attribute comparison along the written order, stereo via '
                         '_translate_*_sign and via RDKit, also with caller-supplied weights; polycyclic stereo molecules in 10 (25) random orders; '
-                        'injectivity on all stereoisomers of sampled molecules and on exhaustive decorated graphs <= 4 (5) atoms. '
+                        'injectivity on all stereoisomers of sampled molecules and on exhaustive decorated graphs <= 4 (5) atoms; labelling histories (str / hash / order requested before add_atom_stereo / add_cis_trans_stereo / clean_stereo on allenes, tetrahedrons, double bonds) against the same labelling on a fresh object. '
                         'non-trivial = molecule with more than 2 atoms / tokenizer input non-empty / bracket body accepted')
     import time
     tm = {}
